@@ -122,7 +122,11 @@ def main():
         cmds.append(r.verus_cmd if hasattr(r, 'verus_cmd') else r.cmd)
         bounded += getattr(r, 'bounded', [])
         smt_ms += getattr(r, 'smt_ms', 0)
+        seen_ob = set()
         for f in fails:
+            if (f['fn'], f['label']) in seen_ob:
+                continue
+            seen_ob.add((f['fn'], f['label']))
             k = finding_for(kf, prop, f)
             (known if k else violations).append((f, k, r))
     wall = time.time() - t0
